@@ -25,7 +25,7 @@ ASSUMPTIONS = [
     'the value order (ties depend on storage order)',
 ]
 ANCHORS = ['Table.transform', 'Table.norm', 'Table.pa', 'Table.rankdata', '_normalize_table']
-REQUIRED = ['norm_with_repeated_ids', 'norm_signed_positive_total_vectors', 'tap_calls_checked', 'op_transform', 'op_norm', 'op_pa',
+REQUIRED = ['second_transform_on_result', 'norm_with_repeated_ids', 'norm_signed_positive_total_vectors', 'tap_calls_checked', 'op_transform', 'op_norm', 'op_pa',
             'op_rankdata', 'cli_runs', 'axis_agreement_checked',
             'layout_csc_seen', 'layout_unsorted_seen', 'zero_cells_checked']
 
@@ -210,6 +210,27 @@ def run_case(ctx, index):
         exp = expected_transform(spec, f, axis)
         finish(res, exp, 'C13/transform-result/' + fname, rtol)
         changed = not snap.bits_equal(exp.D, spec.D)
+        if r.random() < .4:
+            # a second transform on what the first one returned: it sees the
+            # non-zero values of *that* table (cells the first function set
+            # to zero are zero cells now), and an element-wise +1 must not
+            # bring them back
+            axis2 = r.choice(['sample', 'observation'])
+            exp_now = gen.Spec(exp.obs_ids, exp.samp_ids,
+                               np.array(snap.snap(res).D), exp.obs_md,
+                               exp.samp_md, exp.type)
+            log2 = []
+
+            def tap2(v, i, m):
+                log2.append((np.array(v, dtype=float, copy=True), str(i),
+                             None if m is None else dict(m)))
+                return v + 1
+            res2 = res.transform(tap2, axis=axis2, inplace=bool(
+                r.random() < .5))
+            d2 = dict(desc, second_transform_axis=axis2)
+            check_tap(ctx, log2, exp_now, axis2, d2)
+            check_zero_cells(ctx, res2, exp_now, d2)
+            ctx.count('second_transform_on_result')
     elif op == 'norm':
         res = t.norm(axis=axis, inplace=inplace)
         ctx.count('op_norm')
